@@ -530,6 +530,85 @@ func (e *eng) result(evals, nontrivial int, rule string, extra map[string]interf
 	}}
 }
 
+// multiEnvCase: three names X0, X1, X2 in one project, each with its own defining levels and value order.
+func (e *eng) multiEnvCase(rows [3]layRow, mode string) {
+	d := e.env.Sub("menv")
+	level := func(l int) map[string]string {
+		m := map[string]string{}
+		for k, r := range rows {
+			if r.has(l) {
+				m[fmt.Sprintf("X%d", k)] = fmt.Sprintf("v%d", r.val(l))
+			}
+		}
+		return m
+	}
+	block := func(indent string, m map[string]string) string {
+		var b strings.Builder
+		for _, k := range []string{"X0", "X1", "X2"} {
+			if v, ok := m[k]; ok {
+				fmt.Fprintf(&b, "%s%s: %s\n", indent, k, yq(v))
+			}
+		}
+		return b.String()
+	}
+	var y strings.Builder
+	if m := level(2); len(m) > 0 {
+		y.WriteString("contexts:\n  ctx:\n    env:\n" + block("      ", m))
+	}
+	y.WriteString("tasks:\n  t:\n")
+	if len(level(2)) > 0 {
+		y.WriteString("    context: ctx\n")
+	}
+	if m := level(3); len(m) > 0 {
+		var f strings.Builder
+		for _, k := range []string{"X0", "X1", "X2"} {
+			if v, ok := m[k]; ok {
+				fmt.Fprintf(&f, "%s=%s\n", k, v)
+			}
+		}
+		_ = ioutil.WriteFile(filepath.Join(d, "x.env"), []byte(f.String()), 0o644)
+		y.WriteString("    env_file: x.env\n")
+	}
+	if m := level(4); len(m) > 0 {
+		y.WriteString("    env:\n" + block("      ", m))
+	}
+	if m := level(6); len(m) > 0 {
+		y.WriteString("    variations:\n      - VN: \"1\"\n" + block("        ", m))
+	}
+	y.WriteString("    command:\n      - echo \"OBS X0=[$X0] X1=[$X1] X2=[$X2] T=[$TASK_NAME]\"\n")
+	y.WriteString("pipelines:\n  p:\n    - task: t\n")
+	if m := level(5); len(m) > 0 {
+		y.WriteString("      env:\n" + block("        ", m))
+	}
+	_ = ioutil.WriteFile(filepath.Join(d, "tasks.yaml"), []byte(y.String()), 0o644)
+	var extra []string
+	for k, v := range level(1) {
+		extra = append(extra, k+"="+v)
+	}
+	for _, k := range []string{"X0", "X1", "X2"} {
+		os.Unsetenv(k)
+	}
+	target := "t"
+	if mode == "stage" {
+		target = "p"
+	}
+	res := e.run(d, extra, "--raw", target)
+	want := "OBS"
+	for k, r := range rows {
+		v := ""
+		if r.Expect != 0 {
+			v = fmt.Sprintf("v%d", r.Expect)
+		}
+		want += fmt.Sprintf(" X%d=[%s]", k, v)
+	}
+	want += " T=[t]"
+	got, _ := find(res.Stdout, "OBS")
+	if res.Exit != 0 || "OBS"+got != want {
+		e.rep.Add(core.Finding{Prop: "C09", Key: "C09:env:wrong-level-wins:several-names", What: fmt.Sprintf("three names defined at levels %v / %v / %v (%s): command saw %q, model %q", rows[0].Defs, rows[1].Defs, rows[2].Defs, mode, "OBS"+got, want),
+			Detail: map[string]interface{}{"yaml": y.String(), "parent_env": extra, "stdout": res.Stdout, "stderr": tailS(res.Stderr, 300)}})
+	}
+}
+
 // taskNameParallel: several tasks without any env of their own run at the same time; each command
 // must see its own task's name (TASK_NAME is set on a per-run copy of the environment).
 func (e *eng) taskNameParallel(k int) {
@@ -578,6 +657,26 @@ func CheckC09(env *core.Env, rep *core.Report) *core.Result {
 		e.taskNameParallel(3 + r%6)
 		n++
 	}
+	// several names at once, each defined at its own subset of levels (rows of the model combined)
+	multi := map[bool]int{false: 20, true: 900}[env.Thorough()]
+	rng := env.Rand("multi-env")
+	core.Parallel(multi, 16, func(i int) {
+		var pick [3]layRow
+		r := env.Rand(fmt.Sprintf("multi-env-%d", i))
+		mode := []string{"direct", "stage"}[r.Intn(2)]
+		for k := 0; k < 3; k++ {
+			for {
+				c := envRows[r.Intn(len(envRows))]
+				if c.Mode == mode {
+					pick[k] = c
+					break
+				}
+			}
+		}
+		e.multiEnvCase(pick, mode)
+		atomic.AddInt64(&n, 1)
+	})
+	_ = rng
 	return e.result(int(n), int(n)-8, "every non-empty subset of the six environment levels defining X (63) x values ascending/descending with the level x run directly / as a stage, and every subset of the dir levels (8) x direct/stage x started in the project root / a sub-directory, as enumerated by LayersGen.tla with the expected winner; each is a generated project run through the binary (echo $X, $TASK_NAME, an untouched parent variable; pwd in before, command, after)",
 		map[string]interface{}{"env_cases": len(envRows), "dir_cases": len(dirRows) * 2})
 }
@@ -592,7 +691,11 @@ func CheckC10(env *core.Env, rep *core.Report) *core.Result {
 			varRows = append(varRows, r)
 		}
 	}
-	ar := core.MustHold(env, core.TLCOpts{Module: "Args", Config: "Args.cfg", Workers: 1})
+	argsCfg, argsWant := "Args.cfg", 2406
+	if env.Thorough() {
+		argsCfg, argsWant = "Args_4.cfg", 16812 // up to 4 words after the separator
+	}
+	ar := core.MustHold(env, core.TLCOpts{Module: "Args", Config: argsCfg, Workers: 2})
 	var acs []argCase
 	for _, p := range ar.Tagged("ARG") {
 		var c argCase
@@ -602,8 +705,8 @@ func CheckC10(env *core.Env, rep *core.Report) *core.Result {
 		acs = append(acs, c)
 	}
 	e.note("Args", ar, fmt.Sprintf("%d argument vectors; ArgsVerbatim holds (split at the first --)", len(acs)))
-	if len(acs) != 2406 {
-		core.Broken("Args emitted %d cases, expected 2406", len(acs))
+	if len(acs) != argsWant {
+		core.Broken("Args emitted %d cases, expected %d", len(acs), argsWant)
 	}
 	sel := acs
 	if !env.Thorough() {
